@@ -221,8 +221,9 @@ def u_id_guard(ctx, same):
                   isinstance(res, Raised) and isinstance(res.exc, C.InconsistentPatchesError) and log == [])
 
 
-@unit(P, "load_patches.centres", fuc=["yaw.catalog.catalog:load_patches"], trusted=["iter_unordered contract"])
-def u_load_centres(ctx):
+@unit(P, "load_patches.centres", fuc=["yaw.catalog.catalog:load_patches"], trusted=["iter_unordered contract"],
+      cases=[dict(centers=True), dict(centers="catalog")])
+def u_load_centres(ctx, centers=True):
     """with N given centres: the stored ids must be exactly 0..N-1 (otherwise the creation is rejected and the cache
     invalidated); then the patch with id i is built with centre i (pairing by position proved in C05 for every arrival order)"""
     from . import C05 as _C05
@@ -235,7 +236,7 @@ def u_load_centres(ctx):
         return orig_check(name, clause, **kw)
     ctx.check = spy
     try:
-        _C05.u_load_patches(ctx, centers=True)
+        _C05.u_load_patches(ctx, centers=centers)
     finally:
         ctx.check = orig_check
     if state.get("returned_normally"):
@@ -362,7 +363,7 @@ def _register_shared():
          cases=[dict(ncat=n) for n in (2, 3)], trusted=["metric axioms", "itertools.compress"])(_C01.u_links)
 
 
-_register_shared()
+# _register_shared() is called by the driver after this module is fully imported (no import cycles)
 
 
 
@@ -374,4 +375,4 @@ def _register_shared_split():
          cases=[dict(mode=m, w=False, z=False) for m in ("ids", "centres", "centres+ids")])(_C02.u_split)
 
 
-_register_shared_split()
+# _register_shared_split() is called by the driver after this module is fully imported (no import cycles)
